@@ -160,6 +160,23 @@ CHECKS = {
         "conventions for shift counts >= 32; tolerance 1e-9 on decimals.",
         "DESIGN.md section 5 C19",
     ),
+    "C20": (
+        "property-based testing (Hypothesis) with layout generators that "
+        "know every token's / planted fault's start line; exhaustive token x "
+        "follower matrix",
+        "Token level: every token kind x every kind of following text x "
+        "leading layout (exhaustive matrix) and random token sequences with "
+        "random separators are scanned and each token's file and line "
+        "compared with the line the generator placed it on. Program level: "
+        "one of 14 faults is planted on a known line at top level / in "
+        "blocks / loops / catch blocks / called functions / module files "
+        "while the rest of the program is laid out over random lines; the "
+        "error position, the stack-trace entry of the call and, for modules, "
+        "the mod:<name> file must name that line.",
+        "Trusted: the layout generators' line arithmetic; columns are not "
+        "checked; planted constructs are single-line.",
+        "DESIGN.md section 5 C20",
+    ),
 }
 
 NOT_APPLICABLE = {}
